@@ -167,9 +167,18 @@ impl ast::Visit for Visitor<'_, '_> {
                 )));
             },
 
-            ast::StmtKind::InterruptLabel { .. } => {},
+            // the expression in these labels must be an integer
+            ast::StmtKind::InterruptLabel(expr) => {
+                if let Err(e) = self.check_int_label_expr(expr) {
+                    self.errors.set(e);
+                }
+            },
+            ast::StmtKind::RelTimeLabel { delta, .. } => {
+                if let Err(e) = self.check_int_label_expr(delta) {
+                    self.errors.set(e);
+                }
+            },
             ast::StmtKind::AbsTimeLabel { .. } => {},
-            ast::StmtKind::RelTimeLabel { .. } => {},
             ast::StmtKind::Label { .. } => {},
             ast::StmtKind::ScopeEnd { .. } => {},
             ast::StmtKind::NoInstruction { .. } => {},
@@ -231,6 +240,11 @@ impl Visitor<'_, '_> {
     ) -> ImplResult {
         let ty = self.check_expr(expr)?;
         self.require_void(ty, expr.span, "expression statements must be of void type")
+    }
+
+    fn check_int_label_expr(&self, expr: &Sp<ast::Expr>) -> ImplResult {
+        let ty = self.check_expr_as_value(expr, expr.span)?;
+        self.require_int(ty, expr.span, expr.span)
     }
 
     fn check_stmt_times(
